@@ -1,3 +1,685 @@
+//! C33 — DA-compressed blocks decompress to the original blocks, even when
+//! registry entries are reused, evicted, overwritten or expire.
+//!
+//! Real code on both sides: `fuel_core_compression::{compress, decompress}`
+//! over the real merkleized temporal-registry tables of
+//! `fuel-core-compression-service` (`CompressionContext` /
+//! `DecompressionContext` on in-memory storage transactions).  Two separate
+//! databases; the decompressor only ever sees the compressed blocks (read back
+//! from the real postcard-encoded `CompressedBlocks` table) plus a boring
+//! model of the on-chain coin / message / block-id tables.
+mod blocks;
+mod model;
+
+use blocks::{build_block, normalise_tx, Alphabet, TEMPLATES};
+use fuel_core_compression::{
+    compress::compress,
+    decompress::decompress,
+    ports::{EvictorDb, TemporalRegistry, UtxoIdToPointer},
+    Config, VersionedCompressedBlock,
+};
+use fuel_core_compression_service::{
+    storage::{
+        column::CompressionColumn,
+        evictor_cache::MetadataKey,
+        CompressedBlocks, EvictorCache,
+    },
+    temporal_registry::{CompressionContext, CompressionStorageWrapper, DecompressionContext},
+};
+use fuel_core_storage::{
+    merkle::column::MerkleizedColumn,
+    structured_storage::test::InMemoryStorage,
+    transactional::{ReadTransaction, WriteTransaction},
+    StorageAsMut, StorageAsRef,
+};
+use fuel_core_types::{
+    blockchain::{block::Block, header::PartialBlockHeader},
+    fuel_compression::RegistryKey,
+    fuel_tx::{input::PredicateCode, Address, AssetId, CompressedUtxoId, ContractId, ScriptCode, Transaction, UtxoId},
+    fuel_types::ChainId,
+    tai64::Tai64,
+};
+use futures::FutureExt;
+use mcx::*;
+use model::ModelChain;
+use serde::{Deserialize, Serialize};
+use serde_json::json;
+use std::{
+    cell::RefCell,
+    collections::BTreeSet,
+    sync::atomic::{AtomicU64, Ordering},
+    time::Duration,
+};
+
+type CStore = InMemoryStorage<MerkleizedColumn<CompressionColumn>>;
+
+/// Retention of the temporal registry in seconds (small, so that expiry is
+/// reachable with the time steps {0, 1, RETENTION+1}).
+const RETENTION: u64 = 1;
+const T0: u64 = 1_000;
+
 fn main() {
-    mcx::machinery_failure("not built yet");
+    let cli = Cli::parse();
+    match cli.property.as_str() {
+        "C33" => c33(&cli),
+        other => machinery_failure(&format!("vh-compress does not serve {other}")),
+    }
+}
+
+// ---------------------------------------------------------------------------
+// Deterministic view of the compressor's database
+// ---------------------------------------------------------------------------
+
+/// One buffered `write_registry` call.
+#[derive(Clone)]
+enum Write {
+    Address(RegistryKey, Address, Tai64),
+    AssetId(RegistryKey, AssetId, Tai64),
+    ContractId(RegistryKey, ContractId, Tai64),
+    ScriptCode(RegistryKey, ScriptCode, Tai64),
+    PredicateCode(RegistryKey, PredicateCode, Tai64),
+}
+
+impl Write {
+    fn space(&self) -> u8 {
+        match self {
+            Write::Address(..) => 0,
+            Write::AssetId(..) => 1,
+            Write::ContractId(..) => 2,
+            Write::ScriptCode(..) => 3,
+            Write::PredicateCode(..) => 4,
+        }
+    }
+    fn key(&self) -> u32 {
+        match self {
+            Write::Address(k, ..) | Write::AssetId(k, ..) | Write::ContractId(k, ..) | Write::ScriptCode(k, ..) | Write::PredicateCode(k, ..) => k.as_u32(),
+        }
+    }
+}
+
+/// Wraps the REAL `CompressionContext` and forwards everything to it.  The only
+/// thing it owns is the order in which the registrations of one block are
+/// written: `compress` iterates a `std::collections::HashMap` with a random
+/// hasher, so that order differs from run to run.  All `write_registry` calls of
+/// `CompressCtx::finalize` happen after the last read, so they are buffered and
+/// applied (through the real `write_registry`) in an order chosen by the
+/// history (ascending or descending registry key); the `registrations` vector
+/// of the produced block is put in the same order, which is exactly the block
+/// the real code produces when its hash map happens to iterate in that order.
+struct Det<'a, 's> {
+    inner: CompressionContext<'a, &'s mut CStore>,
+    writes: Vec<Write>,
+    /// distinct non-default values the block made the compressor look up
+    looked: RefCell<BTreeSet<(u8, u64)>>,
+}
+
+macro_rules! det_impl {
+    ($ty:ty, $variant:ident) => {
+        impl TemporalRegistry<$ty> for Det<'_, '_> {
+            fn read_registry(&self, key: &RegistryKey) -> anyhow::Result<$ty> {
+                assert!(self.writes.is_empty(), "HARNESS: registry read after a buffered write");
+                <_ as TemporalRegistry<$ty>>::read_registry(&self.inner, key)
+            }
+            fn read_timestamp(&self, key: &RegistryKey) -> anyhow::Result<Tai64> {
+                assert!(self.writes.is_empty(), "HARNESS: registry read after a buffered write");
+                <_ as TemporalRegistry<$ty>>::read_timestamp(&self.inner, key)
+            }
+            fn write_registry(&mut self, key: &RegistryKey, value: &$ty, timestamp: Tai64) -> anyhow::Result<()> {
+                self.writes.push(Write::$variant(*key, value.clone(), timestamp));
+                Ok(())
+            }
+            fn registry_index_lookup(&self, value: &$ty) -> anyhow::Result<Option<RegistryKey>> {
+                assert!(self.writes.is_empty(), "HARNESS: registry read after a buffered write");
+                self.looked.borrow_mut().insert((stringify!($variant).len() as u8, hash_of(value)));
+                <_ as TemporalRegistry<$ty>>::registry_index_lookup(&self.inner, value)
+            }
+        }
+        impl EvictorDb<$ty> for Det<'_, '_> {
+            fn get_latest_assigned_key(&self) -> anyhow::Result<Option<RegistryKey>> {
+                assert!(self.writes.is_empty(), "HARNESS: registry read after a buffered write");
+                <_ as EvictorDb<$ty>>::get_latest_assigned_key(&self.inner)
+            }
+            fn set_latest_assigned_key(&mut self, key: RegistryKey) -> anyhow::Result<()> {
+                <_ as EvictorDb<$ty>>::set_latest_assigned_key(&mut self.inner, key)
+            }
+        }
+    };
+}
+det_impl!(Address, Address);
+det_impl!(AssetId, AssetId);
+det_impl!(ContractId, ContractId);
+det_impl!(ScriptCode, ScriptCode);
+det_impl!(PredicateCode, PredicateCode);
+
+impl UtxoIdToPointer for Det<'_, '_> {
+    fn lookup(&self, utxo_id: UtxoId) -> anyhow::Result<CompressedUtxoId> {
+        self.inner.lookup(utxo_id)
+    }
+}
+
+impl Det<'_, '_> {
+    /// Apply the buffered registrations through the real `write_registry`,
+    /// keyspace by keyspace (the order `write_to_registry` uses), keys ascending
+    /// or descending.  Returns the largest number of registrations in one keyspace.
+    fn flush(mut self, rev: bool) -> anyhow::Result<usize> {
+        let mut writes = std::mem::take(&mut self.writes);
+        writes.sort_by_key(|w| (w.space(), if rev { u32::MAX - w.key() } else { w.key() }));
+        let mut per_space = [0usize; 5];
+        for w in writes {
+            per_space[w.space() as usize] += 1;
+            match w {
+                Write::Address(k, v, t) => self.inner.write_registry(&k, &v, t)?,
+                Write::AssetId(k, v, t) => self.inner.write_registry(&k, &v, t)?,
+                Write::ContractId(k, v, t) => self.inner.write_registry(&k, &v, t)?,
+                Write::ScriptCode(k, v, t) => self.inner.write_registry(&k, &v, t)?,
+                Write::PredicateCode(k, v, t) => self.inner.write_registry(&k, &v, t)?,
+            }
+        }
+        Ok(per_space.into_iter().max().unwrap_or(0))
+    }
+}
+
+fn order_registrations(block: &mut VersionedCompressedBlock, rev: bool) {
+    let k = |key: &RegistryKey| if rev { u32::MAX - key.as_u32() } else { key.as_u32() };
+    #[allow(unreachable_patterns)]
+    match block {
+        VersionedCompressedBlock::V0(p) => {
+            p.registrations.address.sort_by_key(|(key, _)| k(key));
+            p.registrations.asset_id.sort_by_key(|(key, _)| k(key));
+            p.registrations.contract_id.sort_by_key(|(key, _)| k(key));
+            p.registrations.script_code.sort_by_key(|(key, _)| k(key));
+            p.registrations.predicate_code.sort_by_key(|(key, _)| k(key));
+        }
+        _ => machinery_failure("unexpected compressed block version"),
+    }
+}
+
+// ---------------------------------------------------------------------------
+// World
+// ---------------------------------------------------------------------------
+
+#[derive(Clone)]
+struct World {
+    comp: CStore,
+    decomp: CStore,
+    chain: ModelChain,
+    height: u32,
+    time: u64,
+}
+
+#[derive(Clone, Debug, Serialize, Deserialize)]
+struct Blk {
+    /// block template
+    t: u8,
+    /// 0 = same timestamp, 1 = +1 s (= retention, the accessibility boundary), 2 = +retention+1 s
+    dt: u8,
+    /// registrations of one keyspace written in descending key order
+    rev: bool,
+}
+
+/// How the registry looks before the first block of a history.
+#[derive(Clone, Copy, Debug, PartialEq)]
+enum Seed {
+    /// empty databases, no key assigned yet
+    Fresh,
+    /// the key space has wrapped once: key 0 holds value 0 of every keyspace
+    /// (fresh timestamp) and the last assigned key is MAX_WRITABLE, so the next
+    /// registration lands on the live key 0
+    WrapOnLive,
+    /// keys 0 and 1 hold values 0 and 1, last assigned key is MAX_WRITABLE-1: the
+    /// next registrations get MAX_WRITABLE, 0 (wrap-around), 1
+    WrapBeforeMax,
+}
+
+struct Subj {
+    seed: Seed,
+    templates: Vec<u8>,
+    dts: Vec<u8>,
+    revs: bool,
+    alpha: Alphabet,
+    events: [AtomicU64; EVENTS.len()],
+}
+
+/// Registry events a transition can exhibit (vacuity guard: every one of them
+/// must occur in a run that starts from a wrapped key space).
+const EVENTS: [&str; 8] = ["reuse", "fresh-key", "rereg-same-key", "evict-live", "evict-expired", "wrap-to-zero", "max-key", "two-in-keyspace"];
+
+fn key(n: u32) -> RegistryKey {
+    RegistryKey::try_from(n).unwrap()
+}
+
+impl Subj {
+    fn config(&self) -> Config {
+        Config { temporal_registry_retention: Duration::from_secs(RETENTION) }
+    }
+
+    fn seed_db(&self, db: &mut CStore, compressor: bool) {
+        let a = &self.alpha;
+        let (n_values, latest) = match self.seed {
+            Seed::Fresh => return,
+            Seed::WrapOnLive => (1usize, RegistryKey::MAX_WRITABLE),
+            Seed::WrapBeforeMax => (2usize, key(RegistryKey::MAX_WRITABLE.as_u32() - 1)),
+        };
+        let mut tx = db.write_transaction();
+        {
+            let mut w = CompressionStorageWrapper { storage_tx: &mut tx };
+            let ts = Tai64(T0);
+            for i in 0..n_values {
+                let k = key(i as u32);
+                w.write_registry(&k, &a.addr[i], ts).unwrap();
+                w.write_registry(&k, &a.asset[i], ts).unwrap();
+                w.write_registry(&k, &a.contract[i], ts).unwrap();
+                w.write_registry(&k, &ScriptCode::from(a.script[i].clone()), ts).unwrap();
+                w.write_registry(&k, &PredicateCode::from(a.pred[i].clone()), ts).unwrap();
+            }
+        }
+        if compressor {
+            for mk in [MetadataKey::Address, MetadataKey::AssetId, MetadataKey::ContractId, MetadataKey::ScriptCode, MetadataKey::PredicateCode] {
+                tx.storage_as_mut::<EvictorCache>().insert(&mk, &latest).unwrap();
+            }
+        }
+        tx.commit().unwrap();
+    }
+}
+
+fn dump(db: &CStore, out: &mut Vec<u8>) {
+    // every column except the archive of compressed blocks (column 0 and its
+    // merkle columns): nothing in compress/decompress reads it back
+    let mut rows: Vec<(&(u32, Vec<u8>), &fuel_core_storage::kv_store::Value)> = db.storage().iter().filter(|((c, _), _)| !is_archive_column(*c)).collect();
+    rows.sort();
+    for ((c, k), v) in rows {
+        out.extend_from_slice(&c.to_le_bytes());
+        out.extend_from_slice(&(k.len() as u32).to_le_bytes());
+        out.extend_from_slice(k);
+        out.extend_from_slice(&(v.len() as u32).to_le_bytes());
+        out.extend_from_slice(v);
+    }
+}
+
+fn archive_columns() -> &'static [u32] {
+    use fuel_core_storage::kv_store::StorageColumn;
+    use std::sync::OnceLock;
+    static C: OnceLock<Vec<u32>> = OnceLock::new();
+    C.get_or_init(|| {
+        vec![
+            MerkleizedColumn::TableColumn(CompressionColumn::CompressedBlocks).id(),
+            MerkleizedColumn::<CompressionColumn>::MerkleDataColumn(CompressionColumn::CompressedBlocks).id(),
+            MerkleizedColumn::<CompressionColumn>::MerkleMetadataColumn.id(),
+        ]
+    })
+}
+
+fn is_archive_column(c: u32) -> bool {
+    // the shared merkle-metadata column holds one root per table, including the
+    // archive's; it is excluded as a whole (roots are functions of the table
+    // contents, which are in the key)
+    archive_columns().contains(&c)
+}
+
+/// First differing path between two JSON values (array indices kept).
+fn json_diff(a: &serde_json::Value, b: &serde_json::Value, path: &mut Vec<String>) -> Option<(String, String, String)> {
+    use serde_json::Value::*;
+    match (a, b) {
+        (Object(x), Object(y)) => {
+            for (k, v) in x {
+                match y.get(k) {
+                    Some(w) => {
+                        path.push(k.clone());
+                        if let Some(d) = json_diff(v, w, path) {
+                            return Some(d);
+                        }
+                        path.pop();
+                    }
+                    None => return Some((format!("{}.{k}", path.join(".")), v.to_string(), "<absent>".into())),
+                }
+            }
+            for k in y.keys() {
+                if !x.contains_key(k) {
+                    return Some((format!("{}.{k}", path.join(".")), "<absent>".into(), y[k].to_string()));
+                }
+            }
+            None
+        }
+        (Array(x), Array(y)) if x.len() == y.len() && !x.iter().all(|v| v.is_number()) => {
+            for (i, (v, w)) in x.iter().zip(y).enumerate() {
+                path.push(format!("[{i}]"));
+                if let Some(d) = json_diff(v, w, path) {
+                    return Some(d);
+                }
+                path.pop();
+            }
+            None
+        }
+        _ if a == b => None,
+        _ => Some((path.join("."), short(a), short(b))),
+    }
+}
+
+fn short(v: &serde_json::Value) -> String {
+    let s = v.to_string();
+    if s.len() > 160 {
+        format!("{}…({} chars)", &s[..160], s.len())
+    } else {
+        s
+    }
+}
+
+/// Path without array indices (stable across positions).
+fn class_of(path: &str) -> String {
+    path.split('.').filter(|p| !p.starts_with('[')).collect::<Vec<_>>().join(".")
+}
+
+fn tx_kind(tx: &Transaction) -> &'static str {
+    match tx {
+        Transaction::Script(_) => "Script",
+        Transaction::Create(_) => "Create",
+        Transaction::Mint(_) => "Mint",
+        Transaction::Upgrade(_) => "Upgrade",
+        Transaction::Upload(_) => "Upload",
+        Transaction::Blob(_) => "Blob",
+    }
+}
+
+impl Subject for Subj {
+    type World = World;
+    type Op = Blk;
+
+    fn name(&self) -> String {
+        format!("compress/decompress[seed={:?},templates={:?},dt={:?},rev={}]", self.seed, self.templates, self.dts, self.revs)
+    }
+
+    fn fresh(&self) -> World {
+        let mut comp = CStore::default();
+        let mut decomp = CStore::default();
+        self.seed_db(&mut comp, true);
+        self.seed_db(&mut decomp, false);
+        World { comp, decomp, chain: ModelChain::prefunded(&self.alpha), height: 0, time: T0 }
+    }
+
+    fn clone_world(&self, w: &World) -> Option<World> {
+        Some(w.clone())
+    }
+
+    fn enabled(&self, _w: &World) -> Vec<Blk> {
+        let mut v = vec![];
+        for &t in &self.templates {
+            for &dt in &self.dts {
+                v.push(Blk { t, dt, rev: false });
+                if self.revs && TEMPLATES[t as usize].multi {
+                    v.push(Blk { t, dt, rev: true });
+                }
+            }
+        }
+        v
+    }
+
+    fn label(&self, op: &Blk) -> String {
+        format!("{}{}", TEMPLATES[op.t as usize].name, if op.rev { "/rev" } else { "" })
+    }
+
+    fn step(&self, w: &mut World, op: &Blk) -> Result<String, Violation> {
+        let chain_id = ChainId::default();
+        let config = self.config();
+        let height = w.height + 1;
+        let time = w.time + match op.dt { 0 => 0, 1 => 1, _ => RETENTION + 1 };
+        // the block, and the on-chain facts a node knows once it has the block
+        let block: Block = build_block(&self.alpha, op.t, height, time, &mut w.chain);
+        w.chain.record_block(&block, &chain_id);
+        w.height = height;
+        w.time = time;
+
+        // ---- compressor (real service flow: storage tx, context, compress, archive, commit)
+        let (max_regs, n_regs, used) = {
+            let mut tx = w.comp.write_transaction();
+            let ctx = CompressionContext::create_from_block(&mut tx, &block, chain_id)
+                .map_err(|e| viol("compress-error:context", format!("CompressionContext::create_from_block failed on a valid block at height {height}: {e:#}")))?;
+            let mut det = Det { inner: ctx, writes: vec![], looked: RefCell::new(BTreeSet::new()) };
+            let r = compress(&config, &mut det, &block).now_or_never().expect("compress resolves instantly");
+            let mut compressed = r.map_err(|e| viol(format!("compress-error:{}", err_class(&format!("{e:#}"))), format!("compress failed on a valid block (height {height}, time {time}): {e:#}")))?;
+            let det_used = det.looked.borrow().len();
+            let max_regs = det.flush(op.rev).map_err(|e| viol("compress-error:write-registry", format!("write_registry failed: {e:#}")))?;
+            order_registrations(&mut compressed, op.rev);
+            let n_regs = {
+                use fuel_core_compression::VersionedBlockPayload;
+                let r = compressed.registrations();
+                r.address.len() + r.asset_id.len() + r.contract_id.len() + r.script_code.len() + r.predicate_code.len()
+            };
+            tx.storage_as_mut::<CompressedBlocks>()
+                .insert(&height.into(), &compressed)
+                .map_err(|e| viol("compress-error:archive", format!("cannot store the compressed block: {e:?}")))?;
+            tx.commit().map_err(|e| viol("compress-error:commit", format!("commit failed: {e:?}")))?;
+            let used = det_used;
+            (max_regs, n_regs, used)
+        };
+
+        // ---- the wire: the decompressor gets what the archive table (postcard) gives back
+        let compressed: VersionedCompressedBlock = w
+            .comp
+            .read_transaction()
+            .storage_as_ref::<CompressedBlocks>()
+            .get(&height.into())
+            .map_err(|e| viol("archive-read-error", format!("{e:?}")))?
+            .ok_or_else(|| viol("archive-read-error", "compressed block missing from the archive table"))?
+            .into_owned();
+
+        // ---- what happens to the registry (read from the decompressor's database, which
+        // is still in the state before this block)
+        let mut tags: BTreeSet<&'static str> = BTreeSet::new();
+        {
+            use fuel_core_compression::VersionedBlockPayload;
+            let mut rtx = w.decomp.write_transaction();
+            let view = CompressionStorageWrapper { storage_tx: &mut rtx };
+            let regs = compressed.registrations();
+            macro_rules! classify {
+                ($list:expr, $ty:ty) => {
+                    for (k, v) in $list.iter() {
+                        let old: Option<$ty> = view.read_registry(k).ok();
+                        let old_ts: Option<Tai64> = <_ as TemporalRegistry<$ty>>::read_timestamp(&view, k).ok();
+                        let live = old_ts.map(|t| config.is_timestamp_accessible(Tai64(time), t).unwrap_or(false)).unwrap_or(false);
+                        tags.insert(match &old {
+                            None => "fresh-key",
+                            Some(o) if o == v => "rereg-same-key",
+                            Some(_) if live => "evict-live",
+                            Some(_) => "evict-expired",
+                        });
+                        if *k == RegistryKey::ZERO && self.seed != Seed::Fresh {
+                            tags.insert("wrap-to-zero");
+                        }
+                        if *k == RegistryKey::MAX_WRITABLE {
+                            tags.insert("max-key");
+                        }
+                    }
+                };
+            }
+            classify!(regs.address, Address);
+            classify!(regs.asset_id, AssetId);
+            classify!(regs.contract_id, ContractId);
+            classify!(regs.script_code, ScriptCode);
+            classify!(regs.predicate_code, PredicateCode);
+        }
+        if used > n_regs {
+            tags.insert("reuse");
+        }
+        if max_regs >= 2 {
+            tags.insert("two-in-keyspace");
+        }
+        for t in &tags {
+            let i = EVENTS.iter().position(|e| e == t).expect("known event");
+            self.events[i].fetch_add(1, Ordering::Relaxed);
+        }
+
+        // ---- decompressor (own database, model of the on-chain tables)
+        let partial = {
+            let mut dtx = w.decomp.write_transaction();
+            let dctx = DecompressionContext { compression_storage: CompressionStorageWrapper { storage_tx: &mut dtx }, onchain_db: &w.chain };
+            let r = decompress(config, dctx, compressed).now_or_never().expect("decompress resolves instantly");
+            let p = r.map_err(|e| viol(format!("decompress-error:{}", err_class(&format!("{e:#}"))), format!("decompress failed for the block at height {height} (time {time}): {e:#}")))?;
+            dtx.commit().map_err(|e| viol("decompress-error:commit", format!("{e:?}")))?;
+            p
+        };
+
+        // ---- oracle
+        let want_header = PartialBlockHeader::from(block.header());
+        if partial.header != want_header {
+            let d = json_diff(&json!(want_header), &json!(partial.header), &mut vec![]).map(|(p, a, b)| (class_of(&p), a, b)).unwrap_or_default();
+            return Err(viol(format!("mismatch:header:{}", d.0), format!("height {height}: header field {} expected {} got {}", d.0, d.1, d.2)));
+        }
+        if partial.transactions.len() != block.transactions().len() {
+            return Err(viol("mismatch:tx-count", format!("height {height}: {} transactions expected, {} decompressed", block.transactions().len(), partial.transactions.len())));
+        }
+        for (i, (orig, got)) in block.transactions().iter().zip(&partial.transactions).enumerate() {
+            let want = normalise_tx(orig);
+            if &want != got {
+                let (p, a, b) = json_diff(&json!(want), &json!(got), &mut vec![]).unwrap_or(("?".into(), "?".into(), "?".into()));
+                return Err(viol(
+                    format!("mismatch:{}:{}", tx_kind(orig), class_of(&p)),
+                    format!("height {height} tx {i} ({}): field {p} expected {a} got {b}", tx_kind(orig)),
+                ));
+            }
+            use fuel_core_types::fuel_tx::UniqueIdentifier;
+            // (a mint's id covers the contract-input fields that compression drops by design)
+            if !matches!(orig, Transaction::Mint(_)) && orig.id(&chain_id) != got.id(&chain_id) {
+                return Err(viol(format!("mismatch:{}:tx-id", tx_kind(orig)), format!("height {height} tx {i}: transaction id differs")));
+            }
+        }
+        Ok(format!("ok values={used} regs={n_regs} {}", tags.into_iter().collect::<Vec<_>>().join(",")))
+    }
+
+    fn canon(&self, w: &World) -> Vec<u8> {
+        let mut out = vec![];
+        out.extend_from_slice(&w.height.to_le_bytes());
+        out.extend_from_slice(&w.time.to_le_bytes());
+        dump(&w.comp, &mut out);
+        out.extend_from_slice(b"|decomp|");
+        dump(&w.decomp, &mut out);
+        out.extend_from_slice(b"|chain|");
+        w.chain.digest(&mut out);
+        out
+    }
+
+    fn interesting(&self, _op: &Blk, obs: &str) -> bool {
+        // a block that registered something (fresh value, expired value or a
+        // value whose key was evicted)
+        // something happened in the registry: a key was reused, assigned,
+        // overwritten, evicted, refreshed after expiry, ...
+        !obs.ends_with(' ')
+    }
+
+    fn required_labels(&self) -> Vec<String> {
+        self.templates.iter().map(|t| TEMPLATES[*t as usize].name.to_string()).collect()
+    }
+}
+
+fn err_class(msg: &str) -> &'static str {
+    let m = msg.to_lowercase();
+    if m.contains("timestamp not accessible") {
+        "timestamp-not-accessible"
+    } else if m.contains("invalid timestamp ordering") {
+        "timestamp-ordering"
+    } else if m.contains("not found") || m.contains("notfound") {
+        "not-found"
+    } else if m.contains("utxo") {
+        "utxo"
+    } else {
+        "other"
+    }
+}
+
+// ---------------------------------------------------------------------------
+// Registry probes (vacuity: did reuse / eviction / overwrite / expiry happen?)
+// ---------------------------------------------------------------------------
+
+/// Replays a few fixed histories and reports what the registry did, so that
+/// the evidence shows the interesting events really occur in the alphabet.
+fn witness_events(subjects: &[Subj]) -> serde_json::Value {
+    let mut out = vec![];
+    for s in subjects {
+        let mut w = s.fresh();
+        let mut log = vec![];
+        for (t, dt) in [(2u8, 0u8), (0, 1), (3, 2), (1, 0), (2, 2)] {
+            if !s.templates.contains(&t) || !s.dts.contains(&dt) {
+                continue;
+            }
+            let r = s.step(&mut w, &Blk { t, dt, rev: false });
+            log.push(json!({"block": TEMPLATES[t as usize].name, "dt": dt, "result": match r { Ok(o) => o, Err(v) => format!("VIOLATION {}", v.sig) }}));
+        }
+        out.push(json!({"subject": s.name(), "trace": log}));
+    }
+    json!(out)
+}
+
+fn c33(cli: &Cli) {
+    let thorough = cli.tier == Tier::Thorough;
+    let alpha = Alphabet::new();
+    let all: Vec<u8> = (0..TEMPLATES.len() as u8).collect();
+    let mk = |seed: Seed, templates: Vec<u8>, dts: Vec<u8>, revs: bool| Subj { seed, templates, dts, revs, alpha: alpha.clone(), events: Default::default() };
+    // (subject, depth)
+    let mut plan: Vec<(Subj, usize)> = vec![];
+    let core4: Vec<u8> = vec![0, 1, 2, 3];
+    if thorough {
+        for seed in [Seed::WrapOnLive, Seed::WrapBeforeMax] {
+            plan.push((mk(seed, all.clone(), vec![0, 1, 2], true), 5));
+        }
+        plan.push((mk(Seed::Fresh, all.clone(), vec![1, 2], false), 4));
+        // deeper, on the templates that drive the registry hardest
+        for seed in [Seed::WrapOnLive, Seed::WrapBeforeMax] {
+            plan.push((mk(seed, core4.clone(), vec![1, 2], false), 7));
+        }
+    } else {
+        plan.push((mk(Seed::WrapOnLive, all.clone(), vec![0, 1, 2], false), 3));
+        plan.push((mk(Seed::WrapOnLive, all.clone(), vec![1, 2], true), 4));
+        plan.push((mk(Seed::WrapBeforeMax, all.clone(), vec![1, 2], true), 4));
+        plan.push((mk(Seed::Fresh, all.clone(), vec![1, 2], false), 3));
+    }
+    if let Some(path) = &cli.replay {
+        let rf = load_replay(path);
+        for (s, _) in &plan {
+            if s.name() == rf.subject {
+                replay_and_exit(s, &rf);
+            }
+        }
+        // a replay recorded by the other tier: rebuild the subject from its name
+        for seed in [Seed::WrapOnLive, Seed::WrapBeforeMax, Seed::Fresh] {
+            for revs in [true, false] {
+                for tpl in [all.clone(), core4.clone()] {
+                    for dts in [vec![0u8, 1, 2], vec![1u8, 2]] {
+                        let s = mk(seed, tpl.clone(), dts, revs);
+                        if s.name() == rf.subject {
+                            replay_and_exit(&s, &rf);
+                        }
+                    }
+                }
+            }
+        }
+        machinery_failure("replay: unknown subject");
+    }
+    let mut run = Run::new(cli, "model_checking");
+    let n = plan.len() as u64;
+    let mut event_report = vec![];
+    for (s, depth) in &plan {
+        let b = Bounds::new(*depth, cli).wall(cli.tier.pick(45, 1500 / n));
+        let r = explore(s, &b);
+        // vacuity: in a wrapped key space every registry event must have happened
+        let counts: Vec<(&str, u64)> = EVENTS.iter().zip(&s.events).map(|(e, c)| (*e, c.load(Ordering::Relaxed))).collect();
+        if s.seed != Seed::Fresh && r.violations.is_empty() {
+            for (e, c) in &counts {
+                // (from WrapOnLive the next key is 0: MAX_WRITABLE is 2^24 registrations away)
+                // and from WrapBeforeMax a live entry is only hit after more steps than the bound)
+                let not_reachable = (s.seed == Seed::WrapOnLive && *e == "max-key") || (s.seed == Seed::WrapBeforeMax && *e == "evict-live");
+                if *c == 0 && !not_reachable {
+                    machinery_failure(&format!("{}: vacuous exploration, registry event '{e}' never happened", s.name()));
+                }
+            }
+        }
+        event_report.push(json!({"subject": s.name(), "steps_showing_event(incl. replayed prefixes)": counts.iter().map(|(e, c)| (e.to_string(), json!(c))).collect::<serde_json::Map<_, _>>()}));
+        run.add(r);
+    }
+    run.note("registry_events", json!(event_report));
+    let probes: Vec<Subj> = plan.iter().map(|(s, _)| mk(s.seed, s.templates.clone(), s.dts.clone(), s.revs)).collect();
+    run.note("registry_event_probe", witness_events(&probes));
+    run.note("retention_s", json!(RETENTION));
+    run.assume("fields that DA compression drops by design (#[compress(skip)] in fuel-tx: coin tx_pointer, contract-input utxo/roots/tx_pointer, contract-output roots, change amount, variable output, script receipts_root) are compared in their zeroed form, i.e. the original transaction after fuel-tx's prepare_sign() with predicate_gas_used restored; everything else, the mint tx pointer and the transaction id are compared exactly");
+    run.assume("the order in which the registrations of one block are written (a randomly seeded HashMap inside compress) is pinned by the harness to ascending or descending key order, both explored");
+    run.assume("the decompressor's on-chain lookups (coins, messages, block -> tx ids) are a boring model filled from the original blocks, as on a node that has the chain");
+    run.finish();
 }
